@@ -36,3 +36,13 @@ func verifPopHook(queue any, scheduledTime time.Time) {
 		hook(queue, scheduledTime)
 	}
 }
+
+// VerifAddLockHook, if set, is called by Queue.Add right before it takes the heap lock. It receives the queue (a
+// *Queue[T]) and the scheduled time of the element.
+var VerifAddLockHook func(queue any, scheduledTime time.Time)
+
+func verifAddLockHook(queue any, scheduledTime time.Time) {
+	if hook := VerifAddLockHook; hook != nil {
+		hook(queue, scheduledTime)
+	}
+}
